@@ -316,7 +316,10 @@ class ReturnArrayMessage:
         hdr = ReturnArrayMessageHeader.from_buffer_copy(raw)
         array_type = OptionalInt * hdr.length
         raw = raw[ReturnArrayMessageHeader.len() :]
-        values = list(v.value for v in array_type.from_buffer_copy(raw))
+        values = list(
+            None if v.type == OptionalInt._NULL_TYPE else v.value
+            for v in array_type.from_buffer_copy(raw)
+        )
         return cls(address=hdr.address.address, values=values)
 
 
